@@ -131,7 +131,104 @@ def _stack_loop(f):
     return None, None
 
 
-def _loop_discipline(chk, mod, f, open_test_ok):
+def _dyck(n):
+    """all well-nested open/close sequences of n events (ids in opening order): [('o'|'c', id), ...]"""
+    out = []
+
+    def rec(seq, stack, nxt):
+        if nxt == n and not stack:
+            out.append(list(seq))
+            return
+        if nxt < n:
+            rec(seq + [("o", nxt)], stack + [nxt], nxt + 1)
+        if stack:
+            rec(seq + [("c", stack[-1])], stack[:-1], nxt)
+    rec([], [], 0)
+    return out
+
+
+def _scan_semantics(db, chk, mod, f, make_events, root_of, upto=4):
+    """the stack scan of a builder decided by ABSTRACT RUNS: the statements from the stack's initialisation to the end of the scan loop are evaluated
+    on every well-nested endpoint sequence of up to `upto` events (one of them of zero duration), with _add_edge hooked; the edges must be
+    (innermost event open at that moment | root, event) in opening order.  Returns True / False / None (not understood); reports one obligation."""
+    import copy
+    from ..core.interp import Interp
+    from ..core.values import Obj
+    lp, stack = _stack_loop(f)
+    where = mod.loc(f)
+    if lp is None or not isinstance(lp.iter, ast.Name):
+        return None
+
+    def find(block):
+        for i, st in enumerate(block):
+            if st is lp:
+                return block, i
+            if isinstance(st, (ast.FunctionDef, ast.AsyncFunctionDef, ast.ClassDef)):
+                continue
+            for fld in ("body", "orelse", "finalbody"):
+                b = getattr(st, fld, None)
+                if isinstance(b, list):
+                    r = find(b)
+                    if r:
+                        return r
+        return None
+    hit = find(f.body)
+    if hit is None:
+        return None
+    blk, i = hit
+    inits = [k for k in range(i) if isinstance(blk[k], (ast.Assign, ast.AnnAssign)) and any(H.name_id(t) == stack for t in (blk[k].targets if isinstance(blk[k], ast.Assign) else [blk[k].target]))]
+    if not inits:
+        return None
+    evname = lp.iter.id
+    # the scan's own state: the local containers / constants initialised in front of the loop (the stack among them); everything else there - timers, sorting,
+    # checks of the array - belongs to other rules
+    def fresh(v):
+        return isinstance(v, ast.Constant) or (isinstance(v, (ast.List, ast.Set, ast.Tuple)) and not v.elts) or (isinstance(v, ast.Dict) and not v.keys) or \
+            (isinstance(v, ast.Call) and H.name_id(v.func) in ("set", "list", "dict", "deque") and not v.args and not v.keywords)
+    stmts = [copy.deepcopy(s_) for s_ in blk[:i] if isinstance(s_, (ast.Assign, ast.AnnAssign)) and s_.value is not None and fresh(s_.value)
+             and all(isinstance(t, ast.Name) and t.id != evname for t in (s_.targets if isinstance(s_, ast.Assign) else [s_.target]))] + [copy.deepcopy(lp)]
+    fn = ast.FunctionDef(name="__scan__", args=ast.arguments(posonlyargs=[], args=[ast.arg(arg="self"), ast.arg(arg=evname)], kwonlyargs=[], kw_defaults=[], defaults=[]),
+                         body=stmts, decorator_list=[], returns=None, type_params=[])
+    ast.copy_location(fn, lp)
+    ast.fix_missing_locations(fn)
+    q = "CallStackGraph.__scan__"
+    mod.functions[q] = fn
+    bad, unknown, n = [], 0, 0
+    try:
+        for seq in [s_ for k in range(1, upto + 1) for s_ in _dyck(k)]:
+            edges = []
+
+            def hook(I, name, pos, kw, node):
+                if name.endswith("_add_edge"):
+                    edges.append(tuple(pos[:2]))
+                    return None
+                return NotImplemented
+            try:
+                runs = Interp(db, call_hook=hook).explore(f"{mod.name}:{q}", lambda I, seq=seq: {"self": Obj("self", cls=(mod, "CallStackGraph"), attrs={"root_index": -7}), evname: make_events(seq)})
+            except AnalysisError:
+                runs = []
+            n += 1
+            st, exp = [], []
+            for k, e_ in seq:
+                if k == "o":
+                    exp.append((st[-1] if st else root_of, e_))
+                    st.append(e_)
+                else:
+                    st.pop()
+            if len(runs) != 1 or runs[0].raised is not None or runs[0].path or not all(isinstance(a, int) and isinstance(b, int) for a, b in edges):
+                unknown += 1
+            elif edges != exp:
+                bad.append({"endpoints": "".join("(" if k == "o" else ")" for k, _ in seq), "edges": edges, "expected": exp})
+    finally:
+        mod.functions.pop(q, None)
+    verdict = False if bad else (None if unknown else True)
+    chk.ob("C03.R3-builder", f"{mod.name}: [abstract runs] on every well-nested endpoint sequence of up to {upto} events the scan adds exactly the edges (innermost open event | root) -> event",
+           verdict, where, found=bad[:3] or (f"{unknown} of {n} sequences not evaluated to concrete edges" if unknown else f"{n} sequences"), accepted="parent = top of the stack when the event opens (root when empty); every open pushed, every close pops",
+           why="any other discipline (bottom of the stack, events not pushed, conditional pops) gives some event a wrong parent")
+    return verdict
+
+
+def _loop_discipline(chk, mod, f, open_test_ok, sem=None):
     where = mod.loc(f)
     lp, stack_name = _stack_loop(f)
     if lp is None:
@@ -150,6 +247,8 @@ def _loop_discipline(chk, mod, f, open_test_ok):
         chk.ob("C03.R3-builder", f"{mod.name}: early exit in front of the scan (`if {gtest}: return`) does not skip a thread that has events", verdict, mod.loc(r_), found=gtest,
                accepted="device stacks (no call stack is built for a GPU stream) or an EMPTY event list", why="`len(df) < 2` returns before the single event of a one-event thread is added: it never appears in the tree")
     top = [s for s in lp.body if isinstance(s, ast.If)]
+    if (len(top) != 1 or len(lp.body) != 1) and sem is True:
+        return lp
     if len(top) != 1 or len(lp.body) != 1:
         chk.ob("C03.R3-builder", f"{mod.name}: loop body is one open/close decision", None, where, found=[type(s).__name__ for s in lp.body], accepted="if <open>: ... else: ...")
         return None
@@ -202,12 +301,13 @@ def _loop_discipline(chk, mod, f, open_test_ok):
     # positively wrong: the parent is read from another position of the stack than its top
     wrong_pos = [ast.unparse(x)[:40] for st_ in ob for x in ast.walk(st_) if isinstance(x, ast.Subscript) and isinstance(x.ctx, ast.Load) and H.name_id(x.value) == stack_name
                  and not (isinstance(x.slice, ast.UnaryOp) and isinstance(x.slice.op, ast.USub) and isinstance(x.slice.operand, ast.Constant) and x.slice.operand.value == 1)]
-    chk.ob("C03.R3-builder", f"{mod.name}: OPEN: parent = top of the stack (root when empty)", True if pd_ok and not wrong_pos else (False if wrong_pos else None), where, found=parent_defs + wrong_pos, accepted="parent = stack[-1] if stack else root",
+    ob3 = lambda rule_, text_, verdict_, where_, **kw_: None if (verdict_ is None and sem is True) else chk.ob(rule_, text_, verdict_, where_, **kw_)          # (shape not recognised, semantics decided by the abstract runs)
+    ob3("C03.R3-builder", f"{mod.name}: OPEN: parent = top of the stack (root when empty)", True if pd_ok and not wrong_pos else (False if wrong_pos else None), where, found=parent_defs + wrong_pos, accepted="parent = stack[-1] if stack else root",
            why="any other position (e.g. the bottom of the stack) makes the outermost open event the parent of everything")
     direct = lambda c: any(isinstance(st, ast.Expr) and st.value is c for st in ob)
     uncond = bool(pushes) and bool(edges) and direct(pushes[0]) and direct(edges[0])
     push_ok = len(pushes) == 1 and len(edges) == 1 and not pops_open and uncond
-    chk.ob("C03.R3-builder", f"{mod.name}: OPEN: exactly one edge parent->event and exactly one push (both unconditional), no pop",
+    ob3("C03.R3-builder", f"{mod.name}: OPEN: exactly one edge parent->event and exactly one push (both unconditional), no pop",
            (push_ok and [H.name_id(a) for a in edges[0].args[:1]] == [parent_var]) if (pd_ok or not push_ok) else None, where, found={"pushes": len(pushes), "edges": [ast.unparse(e) for e in edges], "pops": len(pops_open)}, accepted="_add_edge(parent, ev); stack.append(ev)  - every OPEN is pushed, because every CLOSE pops",
            why="not pushing some events (e.g. zero-duration ones) lets their CLOSE pop the enclosing event")
     pops = [c for s in cb for c in ast.walk(s) if is_stack_call(c, ("pop",))]
@@ -221,7 +321,7 @@ def _loop_discipline(chk, mod, f, open_test_ok):
         if not names <= {stack_name, "len"}:
             guard_ok = False
     pop_arg_ok = all((not p.args) or ast.unparse(p.args[0]) == "-1" for p in pops)
-    chk.ob("C03.R3-builder", f"{mod.name}: CLOSE: exactly one pop of the top, conditional on nothing but the stack being non-empty", len(pops) == 1 and not other and guard_ok and pop_arg_ok, where,
+    ob3("C03.R3-builder", f"{mod.name}: CLOSE: exactly one pop of the top, conditional on nothing but the stack being non-empty", (len(pops) == 1 and not other and guard_ok and pop_arg_ok) if (pops or other) else None, where,
            found={"pops": [ast.unparse(p) for p in pops], "guards": gtxt, "other": len(other)}, accepted="if len(stack) > 0: stack.pop(-1)",
            why="a pop that depends on which event is on top leaves finished events on the stack (every later event gets them as parent)")
     return lp
@@ -235,9 +335,11 @@ def _builders(db, chk, new, old, OPEN_N, CLOSE_N, START_O, END_O):
         names = [H.name_id(e) for e in lp.target.elts] if isinstance(lp.target, ast.Tuple) else []
         kind_var = names[2] if len(names) == 4 else None
         return kind_var is not None and (H.match(f"{kind_var} == {OPEN_N}", test) is not None or H.match(f"{kind_var} == OPEN_END", test) is not None)
-    lp = _loop_discipline(chk, new, f, open_new)
+    sem_new = _scan_semantics(db, chk, new, f, lambda seq: [[i_, 0 if i_ == 1 else 5, OPEN_N if k_ == "o" else CLOSE_N, 10 * t_] for t_, (k_, i_) in enumerate(seq)], -7)
+    lp = _loop_discipline(chk, new, f, open_new, sem_new)
     srt = [c for c in H.calls(f) if H.name_id(c.func) == "sort_events"]
-    chk.ob("C03.R3-builder", f"{NEW}: the analysed comparator sorts the endpoints before the scan", len(srt) == 1 and lp is not None and srt[0].lineno < lp.lineno, new.loc(f), found=[ast.unparse(s) for s in srt],
+    lp_pos = lp if lp is not None else _stack_loop(f)[0]          # (the loop's position is known even when its body was not recognised)
+    chk.ob("C03.R3-builder", f"{NEW}: the analysed comparator sorts the endpoints before the scan", (len(srt) == 1 and srt[0].lineno < lp_pos.lineno) if lp_pos is not None else None, new.loc(f), found=[ast.unparse(s) for s in srt],
            accepted="sort_events(events) before the loop")
     se = new.func("sort_events")
     # the cmp function handed to cmp_to_key: nested in sort_events or a module-level helper
@@ -270,22 +372,33 @@ def _builders(db, chk, new, old, OPEN_N, CLOSE_N, START_O, END_O):
         chk.ob("C03.R4-encoding", f"{NEW}: endpoint array built by melt + replace", None, new.loc(f), found={"melt": len(melt), "replace": len(rep)})
     ends = [s for s in ast.walk(f) if isinstance(s, ast.Assign) and isinstance(s.targets[0], ast.Subscript) and lit(s.targets[0].slice) == "end"]
     ends_x = [H.expand(f, e) for e in ends]
-    chk.ob("C03.R4-encoding", f"{NEW}: end = ts + dur", len(ends) == 1 and (H.match("$d['end'] = $d['ts'] + $d['dur']", ends_x[0]) or H.match("$d['end'] = $d['dur'] + $d['ts']", ends_x[0])) is not None, new.loc(f),
+    chk.ob("C03.R4-encoding", f"{NEW}: end = ts + dur", None if not ends else len(ends) == 1 and (H.match("$d['end'] = $d['ts'] + $d['dur']", ends_x[0]) or H.match("$d['end'] = $d['dur'] + $d['ts']", ends_x[0])) is not None, new.loc(f),
            found=[ast.unparse(e) for e in ends], accepted="_df['end'] = _df['ts'] + _df['dur']")
     if lp is not None and isinstance(lp.target, ast.Tuple):
         chk.ob("C03.R4-encoding", f"{NEW}: the scan unpacks rows in the array's column order", len(lp.target.elts) == 4, new.loc(lp), found=ast.unparse(lp.target), accepted="idx, dur, kind, time")
     sel = [n for n, b in H.find_match("$d['stream'].eq(-1)", f) + H.find_match("$d['stream'] == -1", f) + H.find_match("$d.stream.eq(-1)", f) + H.find_match("$d.stream == -1", f)]
-    chk.ob("C03.R4-encoding", f"{NEW}: only host events (stream == -1) of the thread enter the stack", len(sel) == 1, new.loc(f), found=[ast.unparse(s) for s in sel], accepted="df['stream'].eq(-1)")
+    chk.ob("C03.R4-encoding", f"{NEW}: only host events (stream == -1) of the thread enter the stack", (len(sel) == 1) if sel else None, new.loc(f), found=[ast.unparse(s) for s in sel], accepted="df['stream'].eq(-1)")
     host_rows_complete(db, chk, "C03.R4-encoding")
     # ---------------- deprecated builder (used by critical-path analysis)
     g = H.inline_helpers(old, old.func("CallStackGraph._construct_call_stack_graph"))
 
     def open_old(test, lp):
         return H.match(f"{H.name_id(lp.target)}.type == EVENT_START", test) is not None
-    lp2 = _loop_discipline(chk, old, g, open_old)
+    from ..core.values import Obj as _Obj
+
+    def old_events(seq):
+        out = []
+        for t_, (k_, i_) in enumerate(seq):
+            o = _Obj("event", attrs={"idx": i_, "time": 10 * t_, "dur": 0 if i_ == 1 else 5, "type": START_O if k_ == "o" else END_O})
+            o.attrs["__fields__"] = ["idx", "time", "dur", "type"]
+            out.append(o)
+        return out
+    sem_old = _scan_semantics(db, chk, old, g, old_events, _const(old, "NULL_NODE_INDEX"))
+    lp2 = _loop_discipline(chk, old, g, open_old, sem_old)
     # events.sort(key=cmp_to_key(compare_events))  |  events = sorted(<all events>, key=cmp_to_key(compare_events))
     srt2 = [c for c in H.calls(g) if ((isinstance(c.func, ast.Attribute) and c.func.attr == "sort") or H.name_id(c.func) == "sorted") and "compare_events" in ast.unparse(c)]
-    ok_srt = len(srt2) == 1 and lp2 is not None and H.before(srt2[0], lp2) and "cmp_to_key(compare_events)" in ast.unparse(srt2[0]) and not any(k.arg == "reverse" for k in srt2[0].keywords)
+    lp2_pos = lp2 if lp2 is not None else _stack_loop(g)[0]
+    ok_srt = len(srt2) == 1 and lp2_pos is not None and H.before(srt2[0], lp2_pos) and "cmp_to_key(compare_events)" in ast.unparse(srt2[0]) and not any(k.arg == "reverse" for k in srt2[0].keywords)
     sorts_any = [c for c in H.calls(g) if (isinstance(c.func, ast.Attribute) and c.func.attr == "sort") or H.name_id(c.func) == "sorted"]
     chk.ob("C03.R3-builder", f"{OLD}: the analysed comparator sorts the endpoints before the scan", ok_srt if srt2 else (False if sorts_any else None),
            old.loc(g), found=[ast.unparse(s)[:120] for s in (srt2 or sorts_any)], accepted="events.sort(key=cmp_to_key(compare_events))",
